@@ -432,3 +432,26 @@ T('pkgA_twin_request_core_percent_dict', ['C02', 'C03'],
       "                                      endpoint_args=ep_args_str,\n"
       "                                      render_args=rn_args_str)\n",
       "    code_str = _REQ_INNER_TMPL % {'all_args': all_args_str, 'endpoint_args': ep_args_str, 'render_args': rn_args_str}\n"))
+
+T('pkgA_twin_unparse_roundtrip', ALL4, (S, '__UNPARSE__', ''), (C, '__UNPARSE__', ''), (R, '__UNPARSE__', ''), (A, '__UNPARSE__', ''))
+_INJ_OLD = "    kwargs = dict([(k, v) for k, v in all_kwargs.items() if k in fb.get_arg_names()])\n"
+T('pkgA_twin_inject_filter_loop', ['C02'],
+  (S, _INJ_OLD, "    declared = fb.get_arg_names()\n    kwargs = {}\n    for k, v in all_kwargs.items():\n        if k in declared:\n            kwargs[k] = v\n"))
+B('pkgA_inject_filter_loop_no_test', ['C02'], 'R02.b',
+  (S, _INJ_OLD, "    kwargs = {}\n    for k, v in all_kwargs.items():\n        kwargs[k] = v\n"))
+T('pkgA_twin_inject_varkw_named', ['C02'],
+  (S, "    if fb.varkw:\n        return f(**all_kwargs)\n", "    takes_any_keyword = bool(fb.varkw)\n    if takes_any_keyword:\n        return f(**all_kwargs)\n"))
+T('pkgA_twin_provided_itertools_chain', ['C01', 'C04'],
+  (R, "        provided = set.union(*src_provides_map.values())\n",
+      "        provided = set(self.converters) | set(RESERVED_ARGS) | set(self.resources.keys())\n"))
+T('pkgA_twin_reserved_check_inline_intersection', ['C04'],
+  (A, _RES_CHECK_OLD, "        if set(self.resources) & set(RESERVED_ARGS):\n            raise NameError('resource names conflict with builtins: %r' %\n"
+                      "                            sorted(set(self.resources) & set(RESERVED_ARGS)))\n"))
+T('pkgA_twin_reserved_check_any', ['C04'],
+  (A, _RES_CHECK_OLD, "        if any(name in self.resources for name in RESERVED_ARGS):\n"
+                      "            raise NameError('resource names conflict with builtins: %r' %\n"
+                      "                            [name for name in RESERVED_ARGS if name in self.resources])\n"))
+B('pkgA_reserved_check_any_wrong_table', ['C04'], 'R04.c',
+  (A, _RES_CHECK_OLD, "        if any(name in self.resources for name in _REQUEST_BUILTINS):\n"
+                      "            raise NameError('resource names conflict with builtins')\n"),
+  (A, "RESERVED_ARGS", "RESERVED_ARGS, _REQUEST_BUILTINS"))
